@@ -123,7 +123,11 @@ class Gen:
         elif key == "Fee":
             rd, _ = self.read("Fee")
             op = r.choice(CMP_OPS)
-            c = self.int_ins(r.choice(FEE_CONSTS))
+            if self.chance(0.12):
+                c = [("global", "MinTxnFee")]
+                self.features.add("fee_vs_mintxnfee")
+            else:
+                c = self.int_ins(r.choice(FEE_CONSTS))
         elif key == "Addr":
             f = r.choice(ADDR_FIELDS)
             rd, _ = self.read(f)
@@ -141,11 +145,18 @@ class Gen:
             op = r.choice(["==", "==", "!="])
             t = r.choice(TYPE_WORDS)
             c = self.int_ins(t if self.chance(0.6) else TYPE_WORDS.index(t) + 1)
+            if self.chance(self.p.get("odd_enum_consts", 0.04)):
+                # assembler-valid but never satisfiable / unusual comparands
+                c = self.int_ins(r.choice([0, 7, 100, "unknown"]))
+                self.features.add("odd_enum_constant")
         elif key == "OC":
             rd, _ = self.read("OnCompletion")
             op = r.choice(["==", "==", "!="])
             t = r.choice(OC_WORDS)
             c = self.int_ins(t if self.chance(0.6) else OC_WORDS.index(t))
+            if self.chance(self.p.get("odd_enum_consts", 0.04)):
+                c = self.int_ins(r.choice([6, 7, 100]))
+                self.features.add("odd_enum_constant")
         elif key == "AppID":
             rd, _ = self.read("ApplicationID")
             w = r.random()
@@ -230,7 +241,7 @@ class Gen:
         if depth > 0:
             kinds += ["ret", "err"]
         if not self.p["direct_only"]:
-            kinds += ["carry"]
+            kinds += ["carry", "xblock_index"]
         for extra, n in self.p.get("weights", {}).items():
             if extra in kinds:
                 kinds += [extra] * n
@@ -248,14 +259,36 @@ class Gen:
         if k == "gread":
             self.features.add("gread")
             i = r.choice([0, 1, 2])
-            if self.chance(0.6):
+            w = r.random()
+            if w < 0.45:
                 return [("gtxn", i, "Amount"), ("pop",)]
-            return self.int_ins(i) + [("gtxns", "Amount"), ("pop",)]
+            if w < 0.7:
+                return self.int_ins(i) + [("gtxns", "Amount"), ("pop",)]
+            self.features.add("gread_array")
+            return r.choice([
+                [("gtxna", i, "ApplicationArgs", 0), ("pop",)],
+                self.int_ins(i) + [("gtxnsa", "ApplicationArgs", 0), ("pop",)],
+                [("int", 0), ("gtxnas", i, "ApplicationArgs"), ("pop",)],
+                self.int_ins(i) + [("int", 0), ("gtxnsas", "ApplicationArgs"), ("pop",)],
+            ])
         if k == "carry":
             self.features.add("carry")
             s = self.nscratch
             self.nscratch += 1
             return self.cond() + [("store", s)] + self.stmts(depth + 1, in_sub, 1) * (1 if self.chance(0.5) else 0) + [("load", s), ("assert",)]
+        if k == "xblock_index":
+            # the index operand of gtxns is computed from a value pushed in an EARLIER block
+            self.features.add("index_across_blocks")
+            L = self.lab("XB")
+            f = r.choice(["Fee", "TypeEnum", "RekeyTo", "OnCompletion"])
+            kk = r.choice([1, 1, 2])
+            sign = r.choice(["+", "-"])
+            first = r.choice([[("txn", "GroupIndex")], [("int", kk)]])
+            second = [("int", kk)] if first[0][0] == "txn" else [("txn", "GroupIndex")]
+            boundary = r.choice([[("label", L)], [("b", L), ("label", L)]])
+            cmp_tail = {"Fee": self.int_ins(1000) + [("<=",)], "TypeEnum": self.int_ins("pay") + [("==",)],
+                        "RekeyTo": [("global", "ZeroAddress"), ("==",)], "OnCompletion": self.int_ins(0) + [("==",)]}[f]
+            return first + boundary + second + [(sign,), ("gtxns", f)] + cmp_tail + [("assert",)]
         if k == "call":
             self.features.add("call")
             return [("callsub", r.choice(self.subs_available(in_sub)))]
@@ -354,7 +387,10 @@ class Gen:
         end = self.lab("SE")
         if self.chance(0.5):
             self.features.add("switch")
-            head = [("txn", "NumAppArgs"), tuple(["switch"] + labs)]
+            sel = r.choice(["NumAppArgs", "NumAppArgs", "OnCompletion", "TypeEnum", "GroupIndex"])
+            if sel != "NumAppArgs":
+                self.features.add("switch_on_governed_field")
+            head = [("txn", sel), tuple(["switch"] + labs)]
         else:
             self.features.add("match")
             head = [("int", j + 1) for j in range(k)] + [("txn", "NumAppArgs"), tuple(["match"] + labs)]
